@@ -75,6 +75,13 @@ Fixpoint continuous (hs : list vhdr) : res bool :=
   | _ => Ok true
   end.
 
+Definition last_hdr (hs : list vhdr) : option vhdr := match rev hs with [] => None | a :: _ => Some a end.
+Definition ends_at_parent (hs : list vhdr) (msg_last : vhdr) : res bool :=
+  match last_hdr hs with
+  | Some p => if v_num msg_last <=? v_num p then Ok false else is_parent_of p msg_last
+  | None => Ok true
+  end.
+
 Fixpoint find_not {A} (p : A -> bool) (l : list A) : bool :=
   match l with [] => false | a :: tl => if p a then find_not p tl else true end.
 
@@ -197,6 +204,9 @@ Definition verify_all (last_n tau : N) (ps : option prove_state) (rq : prove_req
       if negb c1 then Ok (inl E_INVALID_PARENT_BLOCK) else
       let* c2 := continuous (skipn (N.to_nat (r + s)) hs) in
       if negb c2 then Ok (inl E_INVALID_PARENT_BLOCK) else
+      (* the last returned header is the parent of the proved header (number compared first: no overflow) *)
+      let* c3 := ends_at_parent hs msg_last in
+      if negb c3 then Ok (inl E_INVALID_PARENT_BLOCK) else
       if negb (v_root_ok msg_last) then Ok (inl E_INVALID_PROOF) else
       if mmr =? 3 then Panic S_MMR_LIB else
       if negb (mmr =? 0) then Ok (inl E_INVALID_PROOF) else
